@@ -46,7 +46,7 @@ Proof.
 Qed.
 
 Definition rest_of (d : decl) : sent :=
-  d_conds d ++ d_psds d ++ flat_map items_of_ftempl (d_ftem d) ++ flat_map items_of_ptempl (d_ptem d).
+  d_conds d ++ d_psds d ++ flat_map items_of_ftempl (d_ftem d) ++ d_own d ++ flat_map items_of_ptempl (d_ptem d).
 
 (** "the same data up to the index of the fresh objective leaf" *)
 Theorem sent_of_fresh_form d o : (forall m, In m (d_metrics d) -> nokey o m) ->
@@ -103,10 +103,14 @@ Definition mfresh (s : pst) : Prop := Forall (fun e => wf_edict (es s) (dict_of_
 Definition inv (s : pst) : Prop := closed s /\ mfresh s.
 
 Lemma inv_le s s' :
-  inv s -> le_st (es s) (es s') -> metrics s' = metrics s -> conds s' = conds s -> psds s' = psds s -> inv s'.
+  inv s -> le_st (es s) (es s') -> metrics s' = metrics s -> conds s' = conds s -> psds s' = psds s ->
+  fown s' = fown s -> inv s'.
 Proof.
-  intros [(Cm & Cc & Cp) F] L Hm Hc Hp. split; [split; [|split]|]; unfold mfresh; rewrite ?Hm, ?Hc, ?Hp.
+  intros [(Cm & Cc & Cp & Co) F] L Hm Hc Hp Ho.
+  assert (Hor : own_refs s' = own_refs s) by (unfold own_refs; rewrite Ho; reflexivity).
+  split; [split; [|split; [|split]]|]; unfold mfresh; rewrite ?Hm, ?Hc, ?Hp, ?Hor.
   - eapply Forall_impl; [|exact Cm]. intro e. apply eh_ok_mono, L.
+  - eapply Forall_mono_item; eassumption.
   - eapply Forall_mono_item; eassumption.
   - eapply Forall_mono_item; eassumption.
   - unfold mfresh in F. rewrite Forall_forall in *. intros e He.
@@ -115,26 +119,32 @@ Qed.
 
 Lemma decl_le s s' :
   closed s -> le_st (es s) (es s') -> metrics s' = metrics s -> conds s' = conds s -> psds s' = psds s ->
-  ftem s' = ftem s -> ptem s' = ptem s -> decl_of s' = decl_of s.
+  ftem s' = ftem s -> ptem s' = ptem s -> fown s' = fown s -> decl_of s' = decl_of s.
 Proof.
-  intros (Cm & Cc & Cp) L Hm Hc Hp Hf Hq. unfold decl_of. rewrite Hm, Hc, Hp, Hf, Hq. f_equal.
+  intros (Cm & Cc & Cp & Co) L Hm Hc Hp Hf Hq Ho.
+  assert (Hor : own_refs s' = own_refs s) by (unfold own_refs; rewrite Ho; reflexivity).
+  unfold decl_of. rewrite Hm, Hc, Hp, Hf, Hq, Hor. f_equal.
   - apply map_ext_in. intros e He. apply dict_of_eh_mono; [exact L|]. rewrite Forall_forall in Cm. apply Cm, He.
+  - apply map_item_of_mono; assumption.
   - apply map_item_of_mono; assumption.
   - apply map_item_of_mono; assumption.
 Qed.
 
 Lemma solve_fields s a :
   metrics (solve s a) = metrics s /\ conds (solve s a) = conds s /\ psds (solve s a) = psds s
-  /\ ftem (solve s a) = ftem s /\ ptem (solve s a) = ptem s.
+  /\ ftem (solve s a) = ftem s /\ ptem (solve s a) = ptem s /\ fown (solve s a) = fown s.
 Proof.
   unfold solve, prepare.
   destruct (gen_functions (new_leafE (es s)) (ftem s)) as [st1 fs].
   destruct (gen_partitions st1 (ptem s)) as [st2 ps].
-  destruct (mk_conss st2 _) as [st3 ms]. destruct a; cbn; auto.
+  destruct (mk_conss st2 _) as [st3 ms]. destruct a; cbn; repeat split; reflexivity.
 Qed.
 
 Definition editing (o : op) : bool :=
-  match o with AddCond _ | DelCond _ | AddMetric _ | AddPsd _ | SetTemplates _ _ => true | _ => false end.
+  match o with
+  | AddCond _ | DelCond _ | AddMetric _ | AddPsd _ | SetTemplates _ _ | DeclFun | FAddCons _ _ | FAddPsd _ _ => true
+  | _ => false
+  end.
 
 Lemma step_le s o : closed s -> le_st (es s) (es (fst (step s o))).
 Proof.
@@ -147,39 +157,106 @@ Proof.
   - apply le_st_new_obj.
   - apply le_st_new_obj.
   - apply solve_le, C.
+  - apply solve_le, C.
   - destruct (eval_obj (es s) r) as [st1 x] eqn:H. cbn. apply le_st_frame. eapply eval_obj_frame; eassumption.
+Qed.
+
+(** own items of the functions *)
+Lemma in_own_refs l x o : In o l -> In x (fst o ++ snd o) -> In x (flat_map (fun f => fst f ++ snd f) (filter has_own l)).
+Proof.
+  intros Ho Hx. apply in_flat_map. exists o. split; [|exact Hx]. apply filter_In. split; [exact Ho|].
+  unfold has_own. destruct o as [[|a c] [|b p]]; cbn in *; try reflexivity. destruct Hx.
+Qed.
+Lemma in_own_refs_inv l x : In x (flat_map (fun f => fst f ++ snd f) (filter has_own l)) ->
+  exists o, In o l /\ In x (fst o ++ snd o).
+Proof. intro H. apply in_flat_map in H as (o & Ho & Hx). apply filter_In in Ho as [Ho _]. eauto. Qed.
+Lemma In_upd_nth {A} (F : A -> A) n : forall (l : list A) y, In y (upd_nth F n l) -> In y l \/ exists o, In o l /\ y = F o.
+Proof.
+  induction n as [|n IH]; intros [|a l] y H; cbn [upd_nth] in H; try (destruct H).
+  - right. exists a. split; [left; reflexivity|symmetry; assumption].
+  - left. right. assumption.
+  - left. left. assumption.
+  - destruct (IH l y H) as [H1|(o & Ho & ->)]; [left; right; exact H1|right; exists o; split; [right; exact Ho|reflexivity]].
+Qed.
+Lemma own_refs_decl s (P : nat -> Prop) :
+  Forall P (own_refs s) ->
+  Forall P (flat_map (fun f => fst f ++ snd f) (filter has_own (fown s ++ [([], [])]))).
+Proof. rewrite filter_app. cbn. rewrite app_nil_r. auto. Qed.
+Lemma own_refs_add s (P : nat -> Prop) (F : list nat * list nat -> list nat * list nat) f r :
+  (forall o x, In x (fst (F o) ++ snd (F o)) -> In x (fst o ++ snd o) \/ x = r) ->
+  Forall P (own_refs s) -> P r ->
+  Forall P (flat_map (fun g => fst g ++ snd g) (filter has_own (upd_nth F f (fown s)))).
+Proof.
+  intros HF H Hr. rewrite Forall_forall in *. intros x Hx. apply in_own_refs_inv in Hx as (o & Ho & Hx).
+  apply In_upd_nth in Ho as [Ho|(o' & Ho' & ->)].
+  - apply H. unfold own_refs. eapply in_own_refs; eassumption.
+  - destruct (HF o' x Hx) as [Hx' | ->]; [|exact Hr]. apply H. unfold own_refs. eapply in_own_refs; eassumption.
 Qed.
 
 Lemma step_inv s o : inv s -> inv (fst (step s o)).
 Proof.
   intros I. pose proof I as [C F]. pose proof (step_le s o C) as L. revert L.
   unfold step. destruct (valid_op s o) eqn:V; [|intros _; exact I].
-  destruct o; cbn [step_valid fst]; intro L;
-    try (apply (inv_le s _ I L); reflexivity).
+  destruct C as (Cm & Cc & Cp & Co).
+  destruct o; cbn [step_valid fst]; intro L.
+  - apply (inv_le s _ I L); reflexivity.
+  - apply (inv_le s _ I L); reflexivity.
+  - apply (inv_le s _ I L); reflexivity.
+  - apply (inv_le s _ I L); reflexivity.
+  - apply (inv_le s _ I L); reflexivity.
+  - apply (inv_le s _ I L); reflexivity.
   - (* AddCond *) cbn in V. apply andb_true_iff in V as [_ V]. apply item_okb_ok in V.
-    destruct C as (Cm & Cc & Cp). split; [split; [exact Cm|split; [|exact Cp]]|exact F].
+    split; [split; [exact Cm|split; [|split; [exact Cp|exact Co]]]|exact F].
     cbn [conds es]. apply Forall_app. split; [exact Cc|constructor; [exact V|constructor]].
-  - (* DelCond *) destruct C as (Cm & Cc & Cp). split; [split; [exact Cm|split; [|exact Cp]]|exact F].
+  - (* DelCond *) split; [split; [exact Cm|split; [|split; [exact Cp|exact Co]]]|exact F].
     cbn [conds es]. rewrite Forall_forall in *. intros x Hx. apply filter_In in Hx as [Hx _]. apply Cc, Hx.
   - (* AddMetric *) cbn in V. apply andb_true_iff in V as [V1 V2]. apply valid_ehb_ok in V1.
-    destruct C as (Cm & Cc & Cp). split; [split; [|split; [exact Cc|exact Cp]]|].
+    split; [split; [|split; [exact Cc|split; [exact Cp|exact Co]]]|].
     + cbn [metrics es]. apply Forall_app. split; [exact Cm|constructor; [exact V1|constructor]].
     + unfold mfresh. cbn [metrics es]. apply Forall_app. split; [exact F|constructor; [exact V2|constructor]].
   - (* AddPsd *) cbn in V. apply andb_true_iff in V as [_ V]. apply item_okb_ok in V.
-    destruct C as (Cm & Cc & Cp). split; [split; [exact Cm|split; [exact Cc|]]|exact F].
+    split; [split; [exact Cm|split; [exact Cc|split; [|exact Co]]]|exact F].
     cbn [psds es]. apply Forall_app. split; [exact Cp|constructor; [exact V|constructor]].
-  - (* Solve *) destruct (solve_fields s a) as (H1 & H2 & H3 & _). apply (inv_le s _ I L); assumption.
+  - (* SetTemplates *) apply (inv_le s _ I L); reflexivity.
+  - (* DeclFun *) split; [split; [exact Cm|split; [exact Cc|split; [exact Cp|]]]|exact F].
+    unfold own_refs. cbn [fown es]. apply own_refs_decl, Co.
+  - (* FAddCons *) cbn in V. apply andb_true_iff in V as [_ V]. apply andb_true_iff in V as [_ V]. apply item_okb_ok in V.
+    split; [split; [exact Cm|split; [exact Cc|split; [exact Cp|]]]|exact F].
+    unfold own_refs. cbn [fown es]. apply (own_refs_add s _ _ f r); [|exact Co|exact V].
+    intros o0 x Hx. cbn [fst snd] in Hx. rewrite <- app_assoc in Hx. apply in_app_or in Hx as [Hx|Hx];
+      [left; apply in_or_app; left; exact Hx|]. cbn in Hx. destruct Hx as [<-|Hx]; [right; reflexivity|left; apply in_or_app; right; exact Hx].
+  - (* FAddPsd *) cbn in V. apply andb_true_iff in V as [_ V]. apply andb_true_iff in V as [_ V]. apply item_okb_ok in V.
+    split; [split; [exact Cm|split; [exact Cc|split; [exact Cp|]]]|exact F].
+    unfold own_refs. cbn [fown es]. apply (own_refs_add s _ _ f r); [|exact Co|exact V].
+    intros o0 x Hx. cbn [fst snd] in Hx. rewrite app_assoc in Hx. apply in_app_or in Hx as [Hx|Hx];
+      [left; exact Hx|]. cbn in Hx. destruct Hx as [<-|[]]. right. reflexivity.
+  - (* Solve *) destruct (solve_fields s a) as (H1 & H2 & H3 & _ & _ & H6). apply (inv_le s _ I L); assumption.
+  - (* SolveH *) destruct (solve_fields s (Some (answer_of first rest))) as (H1 & H2 & H3 & _ & _ & H6).
+    apply (inv_le s _ I L); assumption.
   - (* Eval *) revert L. destruct (eval_obj (es s) r) as [st1 x]. cbn. intro L. apply (inv_le s (with_es s st1) I L); reflexivity.
+  - exact I.
+  - exact I.
+  - exact I.
 Qed.
 
 Lemma step_decl s o : closed s -> editing o = false -> decl_of (fst (step s o)) = decl_of s.
 Proof.
   intros C E. pose proof (step_le s o C) as L. revert L.
   unfold step. destruct (valid_op s o); [|reflexivity].
-  destruct o; try discriminate; cbn [step_valid fst]; intro L;
-    try (apply (decl_le s _ C L); reflexivity); try reflexivity.
-  - destruct (solve_fields s a) as (H1 & H2 & H3 & H4 & H5). apply (decl_le s _ C L); assumption.
+  destruct o; try discriminate; cbn [step_valid fst]; intro L.
+  - apply (decl_le s _ C L); reflexivity.
+  - apply (decl_le s _ C L); reflexivity.
+  - apply (decl_le s _ C L); reflexivity.
+  - apply (decl_le s _ C L); reflexivity.
+  - apply (decl_le s _ C L); reflexivity.
+  - apply (decl_le s _ C L); reflexivity.
+  - destruct (solve_fields s a) as (H1 & H2 & H3 & H4 & H5 & H6). apply (decl_le s _ C L); assumption.
+  - destruct (solve_fields s (Some (answer_of first rest))) as (H1 & H2 & H3 & H4 & H5 & H6).
+    apply (decl_le s _ C L); assumption.
   - revert L. destruct (eval_obj (es s) r) as [st1 x]. cbn. intro L. apply (decl_le s (with_es s st1) C L); reflexivity.
+  - reflexivity.
+  - reflexivity.
+  - reflexivity.
 Qed.
 
 Lemma run_inv : forall ops s, inv s -> inv (fst (run s ops)).
@@ -202,7 +279,7 @@ Proof.
 Qed.
 
 Lemma inv0 : inv pst0.
-Proof. split; [split; [|split]|]; constructor. Qed.
+Proof. split; [split; [|split; [|split]]|]; constructor. Qed.
 
 Theorem final_inv ops : inv (final ops).
 Proof. apply run_inv, inv0. Qed.
@@ -240,7 +317,7 @@ Proof.
 Qed.
 
 (** ** values after a finite solve *)
-Definition quiet (o : op) : bool := match o with Solve _ => false | _ => true end.
+Definition quiet (o : op) : bool := match o with Solve _ | SolveH _ _ => false | _ => true end.
 
 Lemma frame_good_leaves st st' : frame st st' -> lpv st' = lpv st.
 Proof. intros (H & _). exact H. Qed.
